@@ -607,7 +607,7 @@ def write_base(R, base, names, orders_sym=None, tokens=None, late_tokens=None):
                 out.append(s + '(')
                 write(v)
                 out.append(')')
-                if late and k == len(kids) - (1 if paren_all else 2):
+                if late and k == len(kids) - 2:
                     out.append(late)    # descriptors written after the last closed branch of the node
                     late = ''
             else:
